@@ -259,6 +259,8 @@ func c20Run(c c20Case) (err error, harness error) {
 			}
 		} else if !c20LockFree(w) {
 			return fmt.Errorf("after %s (other streams still open) the stream observer's lock is still held", what), nil
+		} else if perr := c20StatusLog(w); perr != "" {
+			return fmt.Errorf("after %s (other streams still open) the periodic status log %s", what, perr), nil
 		} else {
 			// the streams that are still open go on working: a message from their source passes through the proxy (the
 			// bookkeeping another stream has just removed must not be theirs)
@@ -401,7 +403,7 @@ func TestVF_C20_Boundary(t *testing.T) {
 	}
 	// overlapping streams around the observer's thresholds: a stream that stays open (shard x) while another one
 	// (shard y) opens and finishes; both counters must be back to zero afterwards
-	thr := []int64{1023, 1024, 1025, 1152, 1153, 1154, 2367, 2368, (1 << 24) - 1, 1 << 24, (1 << 24) + 1, (1 << 24) + 5}
+	thr := []int64{1022, 1023, 1024, 1025, 1152, 1153, 1154, 2367, 2368, (1 << 24) - 1, 1 << 24, (1 << 24) + 1, (1 << 24) + 5}
 	for _, mode := range []string{"default", "routing"} {
 		for _, x := range thr {
 			for _, y := range thr {
@@ -414,6 +416,11 @@ func TestVF_C20_Boundary(t *testing.T) {
 					return o
 				}
 				run(c20Case{Mode: mode, L: 4, R: 6, Opens: []c20Open{mk(x, true), mk(y, false)}, After: 1})
+				if y == x+1 || y == x-1 {
+					// two streams with neighbouring shard ids stay open while a third one comes and goes (the status log
+					// then sees a run of active ids next to a threshold)
+					run(c20Case{Mode: mode, L: 4, R: 6, Opens: []c20Open{mk(x, true), mk(y, true), mk(7, false)}, After: 1})
+				}
 			}
 		}
 	}
@@ -599,6 +606,23 @@ func TestVF_C20_Random(t *testing.T) {
 
 // c20LockFree: with other handlers running concurrently the lock may be taken for an instant; it is "held" only if it
 // cannot be taken at all for two seconds.
+// c20StatusLog does what the observer's status-log goroutine does once a minute - at a moment when streams are open. In
+// production that goroutine has no recover: a panic there ends the process.
+func c20StatusLog(w *c20World) (problem string) {
+	func() {
+		defer func() {
+			if p := recover(); p != nil {
+				problem = fmt.Sprintf("panics (the logging goroutine has no recover: the process dies): %v", p)
+			}
+		}()
+		_ = w.observer.PrintActiveStreams()
+	}()
+	if problem == "" && !c20LockFree(w) {
+		problem = "leaves the stream observer's lock held: every later stream open blocks"
+	}
+	return problem
+}
+
 func c20LockFree(w *c20World) bool {
 	for i := 0; i < 2000; i++ {
 		if w.observer.streamGrowLock.TryLock() {
